@@ -9,16 +9,30 @@ package main
 import (
 	"context"
 	"fmt"
+	"reflect"
+	"sort"
+	"sync"
 	"time"
+
+	"github.com/coreos/etcd/raft/raftpb"
 
 	pb "github.com/marekgalovic/anndb/protobuf"
 	"github.com/marekgalovic/anndb/storage"
 )
 
-func init() { register("snapticker", runSnapTicker) }
+func init() {
+	register("snapticker", runSnapTicker)
+	childHandlers["snapload"] = childSnapLoad
+}
 
 func runSnapTicker(c *Ctx) {
-	c.Stats.Rule = "one history: a single-node partition applies more than 5000 writes and keeps writing across the real 10 s snapshot tick; race detector on; then restart from the stored snapshot plus the log suffix; non-trivial = the ticker did store a snapshot"
+	defer func() {
+		// replicated groups, concurrent writers, snapshots requested on every replica all the time
+		for i, n := 0, c.Pick(2, 10); i < n; i++ {
+			streamChild(c, 5*time.Minute, "C04", "snapload", fmt.Sprint(c.Seed*100+uint64(i)), c.Tier)
+		}
+	}()
+	c.Stats.Rule = "(a) snapshots requested every few ms on every replica of a 2-3 replica partition while 4 writers write through the leader: every stored snapshot = the state after exactly the log entries up to its index (entries recorded by the harness's log-store wrapper), replicas agree, and all replicas restarted from snapshot + suffix hold every acknowledged write; (b) one history: a single-node partition applies more than 5000 writes and keeps writing across the real 10 s snapshot tick; race detector on; then restart from the stored snapshot plus the log suffix; non-trivial = the ticker did store a snapshot"
 	c.Begin("snapshot tick under load")
 	defer c.End()
 	cl := newSimCluster(1)
@@ -132,4 +146,295 @@ func runSnapTicker(c *Ctx) {
 	if !ok {
 		c.Violate("C04", "C04/snapshot-plus-suffix-differs", fmt.Sprintf("after a restart from the ticker's snapshot (index %d) plus the log suffix the node holds [%s]; the acknowledged history gives [%s]", si, got, want), c.History())
 	}
+}
+
+
+// ---------------------------------------------------------------- snapshots under replicated load
+
+// stateAfter applies the recorded normal entries 1..upto to a fresh partition and lists it.
+// ok=false when the record has a gap (the replica was caught up by an installed snapshot).
+func stateAfter(rec *walRec, upto uint64) (string, bool) {
+	p := storage.VerifNewPartition(2, pb.Space_Euclidean)
+	rec.mu.Lock()
+	var es []raftpb.Entry
+	for i := uint64(1); i <= upto; i++ {
+		e, ok := rec.ents[i]
+		if !ok {
+			rec.mu.Unlock()
+			return "", false
+		}
+		es = append(es, e)
+	}
+	rec.mu.Unlock()
+	for _, e := range es {
+		if e.Type == raftpb.EntryNormal && len(e.Data) > 0 {
+			p.ApplyEntry(e.Data)
+		}
+	}
+	return partText(p), true
+}
+
+func partText(p *storage.VerifPartition) string {
+	m := map[int]crefItem{}
+	for _, v := range p.Index().VerifContents() {
+		m[int(v.Id[0])|int(v.Id[1])<<8] = crefItem{int(v.Vector[0]), v.Metadata}
+	}
+	return refText(m)
+}
+
+// child: snapload <seed> <tier>
+func childSnapLoad(args []string) {
+	var seed uint64
+	fmt.Sscan(args[0], &seed)
+	thorough := len(args) > 1 && args[1] == "thorough"
+	out := cout
+	defer out.Done()
+	r := NewRng(seed)
+	N := 2 + r.Intn(2)
+	out.Begin(fmt.Sprintf("snapshots under load, %d replicas, seed %d", N, seed))
+	defer out.End()
+	cl := newSimCluster(N)
+	cl.enableCrashes()
+	defer cl.Close()
+	dsId, err := cl.createDataset(1, 2, 1, uint32(N), pb.Space_Euclidean)
+	if err != nil {
+		out.Count("setup-failed")
+		out.Local("setup failed: %v", err)
+		return
+	}
+	gid := cl.dataset(1, dsId).VerifPartitionAt(0).Id()
+	recOf := func(id uint64) *walRec {
+		return walRecFor(reflect.ValueOf(cl.nodes[id].db).Pointer(), gid)
+	}
+	groupOf := func(id uint64) interface{ VerifSnapshotNow() error } {
+		d := cl.dataset(id, dsId)
+		if d == nil || !d.VerifPartitionAt(0).HasRaft() {
+			return nil
+		}
+		return d.VerifPartitionAt(0).Raft()
+	}
+	if !waitFor(20*time.Second, func() bool {
+		for _, id := range cl.ids {
+			if groupOf(id) == nil {
+				return false
+			}
+		}
+		return true
+	}) {
+		out.Count("setup-failed")
+		out.Local("setup failed: not every replica started its group")
+		return
+	}
+	// writers: disjoint id ranges, each writer sequential (so the final state is determined by the
+	// per-writer histories); an op whose outcome is unknown makes its id "uncertain"
+	const W = 4
+	per := 150
+	if thorough {
+		per = 400
+	}
+	type wres struct {
+		ref       map[int]crefItem
+		uncertain map[int]bool
+		acked     int
+	}
+	res := make([]wres, W)
+	stop := make(chan struct{})
+	var wg, sg sync.WaitGroup
+	for w := 0; w < W; w++ {
+		res[w] = wres{ref: map[int]crefItem{}, uncertain: map[int]bool{}}
+		wg.Add(1)
+		go func(w int, r *Rng) {
+			defer wg.Done()
+			st := &res[w]
+			var own []int
+			next := 0
+			for i := 0; i < per; i++ {
+				var o crashOp
+				switch k := r.Intn(10); {
+				case k < 7 || len(own) == 0:
+					o = crashOp{kind: "ins", ids: []int{w*4000 + next}, vec: r.Intn(50), md: fmt.Sprintf("w=%d", w)}
+					next++
+				case k < 8:
+					o = crashOp{kind: "del", ids: []int{own[r.Intn(len(own))]}}
+				default:
+					o = crashOp{kind: "upd", ids: []int{own[r.Intn(len(own))]}, vec: r.Intn(50), md: fmt.Sprintf("u=%d", i)}
+				}
+				ctx, cancel := context.WithTimeout(context.Background(), 5*time.Second)
+				e := doCrashOp(ctx, cl.nodes[1], dsId, &o)
+				cancel()
+				switch classify(e) {
+				case "ok":
+					applyRef(st.ref, o)
+					st.acked++
+					if o.kind == "ins" {
+						own = append(own, o.ids[0])
+					}
+					if o.kind == "del" {
+						for j, x := range own {
+							if x == o.ids[0] {
+								own = append(own[:j], own[j+1:]...)
+								break
+							}
+						}
+					}
+				case "exists", "notfound":
+					// answered by the replicated state itself: consistent with the reference only
+					// if an earlier op on that id was uncertain
+					st.uncertain[o.ids[0]] = true
+				default:
+					st.uncertain[o.ids[0]] = true
+				}
+			}
+		}(w, r.Fork())
+	}
+	snaps := 0
+	var smu sync.Mutex
+	for _, id := range cl.ids {
+		sg.Add(1)
+		go func(id uint64) {
+			defer sg.Done()
+			for {
+				select {
+				case <-stop:
+					return
+				case <-time.After(2 * time.Millisecond):
+				}
+				if g := groupOf(id); g != nil {
+					if g.VerifSnapshotNow() == nil {
+						smu.Lock()
+						snaps++
+						smu.Unlock()
+					}
+				}
+			}
+		}(id)
+	}
+	wg.Wait()
+	close(stop)
+	sg.Wait()
+	want := map[int]crefItem{}
+	uncertain := map[int]bool{}
+	acked := 0
+	for w := range res {
+		for k, v := range res[w].ref {
+			want[k] = v
+		}
+		for k := range res[w].uncertain {
+			uncertain[k] = true
+		}
+		acked += res[w].acked
+	}
+	out.Local("%d acknowledged writes by %d writers, %d snapshot requests answered, %d ids uncertain", acked, W, snaps, len(uncertain))
+	out.Count("trial")
+	// (1) every snapshot a replica stored is the state after exactly the entries up to its index
+	checked, gaps := 0, 0
+	for _, id := range cl.ids {
+		rec := recOf(id)
+		rec.mu.Lock()
+		created := append([]raftpb.Snapshot{}, rec.created...)
+		rec.mu.Unlock()
+		step := 1
+		if len(created) > 25 {
+			step = len(created) / 25
+		}
+		for i := len(created) - 1; i >= 0; i -= step {
+			sn := created[i]
+			wantAt, ok := stateAfter(rec, sn.Metadata.Index)
+			if !ok {
+				gaps++
+				continue
+			}
+			p := storage.VerifNewPartition(2, pb.Space_Euclidean)
+			if err, pan := p.Restore(sn.Data); err != nil || pan != nil {
+				out.Violate("C04", "C04/snapshot-unreadable", fmt.Sprintf("node %d: the snapshot stored at index %d cannot be loaded: %v %v", id, sn.Metadata.Index, err, pan))
+				continue
+			}
+			checked++
+			if got := partText(p); got != wantAt {
+				out.Violate("C04", "C04/snapshot-is-not-a-log-prefix", fmt.Sprintf("node %d stored a snapshot labelled index %d that holds [%s]; the state after exactly the entries 1..%d of its log is [%s]", id, sn.Metadata.Index, clip(got, 600), sn.Metadata.Index, clip(wantAt, 600)))
+				break
+			}
+		}
+		if len(created) > 0 {
+			out.Nontrivial("snapshot-under-load")
+		}
+	}
+	out.Local("%d stored snapshots compared with the state after their log prefix (%d skipped: log record has a gap)", checked, gaps)
+	holds := func(got map[int]crefItem) string {
+		var bad []string
+		for k, v := range want {
+			if uncertain[k] {
+				continue
+			}
+			if g, ok := got[k]; !ok || g.vec != v.vec || mdText(g.md) != mdText(v.md) {
+				bad = append(bad, fmt.Sprint(k))
+			}
+		}
+		for k := range got {
+			if _, ok := want[k]; !ok && !uncertain[k] {
+				bad = append(bad, fmt.Sprintf("+%d", k))
+			}
+		}
+		sort.Strings(bad)
+		if len(bad) > 12 {
+			bad = append(bad[:12], fmt.Sprintf("… (%d in all)", len(bad)))
+		}
+		return fmt.Sprint(bad)
+	}
+	contents := func(id uint64) map[int]crefItem {
+		m := map[int]crefItem{}
+		d := cl.dataset(id, dsId)
+		if d == nil {
+			return m
+		}
+		for _, v := range d.VerifPartitionAt(0).Index().VerifContents() {
+			m[int(v.Id[0])|int(v.Id[1])<<8] = crefItem{int(v.Vector[0]), v.Metadata}
+		}
+		return m
+	}
+	// (2) the running replicas hold the acknowledged history
+	for _, id := range cl.ids {
+		id := id
+		var bad string
+		if !waitFor(15*time.Second, func() bool { bad = holds(contents(id)); return bad == "[]" }) {
+			out.Violate("C04", "C04/contents-differ", fmt.Sprintf("node %d (running, %d snapshot requests served in the group) differs from the acknowledged history on ids %s", id, snaps, bad))
+		}
+	}
+	// (3) every replica restarted from its stored snapshot + log suffix holds it too
+	for _, id := range cl.ids {
+		cl.nodes[id].ctl.kill()
+	}
+	for _, id := range cl.ids {
+		if _, err := cl.restartNode(id); err != nil {
+			out.Violate("C04", "C04/restart-fails", fmt.Sprintf("node %d: %v", id, err))
+			return
+		}
+	}
+	cl.injectClients(dsId)
+	if !waitFor(20*time.Second, func() bool {
+		for _, id := range cl.ids {
+			if groupOf(id) == nil {
+				return false
+			}
+		}
+		return true
+	}) {
+		out.Violate("C04", "C04/restart-fails", "a partition's raft group was not loaded after the restart")
+		return
+	}
+	cl.dataset(1, dsId).VerifPartitionAt(0).Raft().VerifCampaign()
+	for _, id := range cl.ids {
+		id := id
+		var bad string
+		if !waitFor(30*time.Second, func() bool { bad = holds(contents(id)); return bad == "[]" }) {
+			out.Violate("C04", "C04/snapshot-plus-suffix-differs", fmt.Sprintf("node %d restarted from its stored snapshot plus the log suffix differs from the acknowledged history on ids %s", id, bad))
+		}
+	}
+}
+
+func clip(s string, n int) string {
+	if len(s) > n {
+		return s[:n] + "…"
+	}
+	return s
 }
